@@ -257,6 +257,22 @@ let handle (line : string) : string =
         | _ -> failwith "xml item" in
       let b = Buffer.create 256 in
       dump_node b (M.build (M.dm_list M.Z0 (List.map item items))); Buffer.contents b
+  | L [A "html"; L nodes] ->
+      let rec dn = function
+        | L [A "e"; name; L attrs; L kids] ->
+            M.DElem (str_of_sx name,
+                     List.map (function L [n; k; v] -> { M.ha_ns = str_of_sx n; M.ha_key = str_of_sx k; M.ha_val = str_of_sx v }
+                                      | _ -> failwith "html attr") attrs,
+                     List.map dn kids)
+        | L [A "t"; v] -> M.DText (str_of_sx v)
+        | L [A "c"; v] -> M.DComment (str_of_sx v)
+        | A "doctype" -> M.DDoctype
+        | _ -> failwith "html node" in
+      (match M.read_html (List.map dn nodes) with
+       | M.HTree t -> let b = Buffer.create 256 in dump_node b t; Buffer.contents b
+       | M.HError -> "E"
+       | M.HPanicked -> "PANIC"
+       | M.HNoFuel -> "NOFUEL")
   | L [A "sv"; id; p] -> "S " ^ show_str (M.string_value (Hashtbl.find docs (int_of_sx id)) (path_of_sx p))
   | L [A "tostr"; A h] -> "S " ^ show_str (M.num_to_str (M.f_of_bits (z_of_hex h)))
   | L [A "tonum"; v] -> "N " ^ show_num (M.str_to_num (str_of_sx v))
